@@ -67,6 +67,12 @@ fn main() {
 
 // ------------------------------------------------------------------ check (supervisor)
 
+const WATCHDOG_EXIT: i32 = 87;
+/// wall time after which a single run is declared hung (only ever used to give up)
+fn hang_limit_s(thorough: bool) -> u64 {
+    std::env::var("VERIF_HANG_LIMIT_S").ok().and_then(|s| s.parse().ok()).unwrap_or(if thorough { 600 } else { 180 })
+}
+
 fn cmd_check(args: &[String]) -> i32 {
     let prop = match args.first() {
         Some(p) => p.clone(),
@@ -98,9 +104,10 @@ fn cmd_check(args: &[String]) -> i32 {
     let budget = if thorough { 4 * 3600 } else { 1500 };
     let end = supervise::run_child(&child_args, budget);
     let code = match end {
-        supervise::ChildEnd::Exited(c) => c,
+        supervise::ChildEnd::Exited(c) if c != WATCHDOG_EXIT => c,
         other => {
             let why = match other {
+                supervise::ChildEnd::Exited(_) => format!("stopped itself: a run did not return within {} s (a typical run takes milliseconds)", hang_limit_s(thorough)),
                 supervise::ChildEnd::Signalled(s) => format!("died on signal {s}"),
                 _ => format!("exceeded the wall budget of {budget}s"),
             };
@@ -121,11 +128,13 @@ fn isolate(prop: &str, thorough: bool, inflight: &str, why: &str) -> i32 {
         if thorough {
             a.push("--thorough".into());
         }
-        let end = supervise::run_child(&a, 300);
+        let limit = hang_limit_s(thorough);
+        let end = supervise::run_child(&a, limit);
         let bad = match end {
+            supervise::ChildEnd::Exited(1) => Some("the run violates the property (found while isolating; not minimised because the minimiser's process crashed or hung)".to_string()),
             supervise::ChildEnd::Exited(_) => None,
             supervise::ChildEnd::Signalled(s) => Some(format!("process died on signal {s}")),
-            supervise::ChildEnd::TimedOut => Some("run did not return within 300 s (typical run: < 10 ms)".to_string()),
+            supervise::ChildEnd::TimedOut => Some(format!("run did not return within {limit} s (a typical run takes milliseconds)")),
         };
         if let Some(what) = bad {
             // write the (unminimised) plan as the replay
@@ -239,7 +248,19 @@ fn cmd_child_check(args: &[String]) -> i32 {
     let scale: f64 = arg_val(args, "--scale").and_then(|s| s.parse().ok()).unwrap_or(1.0);
     let seed = verif_seed();
     let root = verif_root();
-    let inflight = arg_val(args, "--inflight").map(|p| supervise::Inflight::create(&p));
+    let inflight: Option<&'static supervise::Inflight> = arg_val(args, "--inflight").map(|p| &*Box::leak(Box::new(supervise::Inflight::create(&p))));
+    if let Some(inf) = inflight {
+        // watchdog: wall time is only used to give up on a run that does not return
+        let limit = hang_limit_s(thorough);
+        std::thread::spawn(move || loop {
+            std::thread::sleep(std::time::Duration::from_millis(500));
+            if inf.longest_inflight_s() >= limit {
+                inf.keep_only_slow(limit);
+                eprintln!("watchdog: a run has been executing for {limit} s; stopping so that the supervisor can isolate it");
+                std::process::exit(WATCHDOG_EXIT);
+            }
+        });
+    }
     let known = load_known();
     println!("rsdd-sim check {prop} tier={tier} VERIF_SEED={seed} threads={}", threads());
 
@@ -269,7 +290,7 @@ fn cmd_child_check(args: &[String]) -> i32 {
                 runs: remaining,
                 thorough,
                 threads: threads(),
-                inflight: inflight.as_ref(),
+                inflight,
                 needs_fault_effect: b.needs_fault_effect,
             });
             if let Some((s, v)) = res.harness_errors.first() {
@@ -288,7 +309,14 @@ fn cmd_child_check(args: &[String]) -> i32 {
                 None => break,
                 Some((idx, run_seed, v)) => {
                     let plan = world.generate(run_seed, &prop, thorough);
+                    if let Some(inf) = inflight {
+                        // minimisation re-executes variants of this run: keep it visible to the supervisor
+                        inf.publish(supervise::MAX_WORKERS - 1, b.world, run_seed);
+                    }
                     let (min, mv, mh, execs) = minimise(world, &plan, &v, 4000);
+                    if let Some(inf) = inflight {
+                        inf.clear(supervise::MAX_WORKERS - 1);
+                    }
                     let path = write_replay(world, &format!("{root}/replays"), &plan, &min, &mv, mh, execs);
                     println!(
                         "violation in world {} run #{idx} seed {run_seed}: [{}] {} (minimised {} -> {} ops in {execs} executions)",
